@@ -540,6 +540,47 @@ fn checks(log: &mut Log) {
     }
   }
   c.eq("fetus-day-runs/total".into(), "run lengths cover the cycle", format!("{}", p), "60".into());
+  // the rendered table entry of each pillar, e.g. 甲子 "占门碓 外东南", 己卯 "占大门 外正西", 癸巳 "占房床 房内北":
+  // place = stem part + branch part with the classical contractions (门+门 = 大门, 碓磨+碓 = 碓磨,
+  // 房床+床 = 房床), prefixed 占 for the 门 entries and the contractions; outside a cardinal direction is 正X
+  let mut p = 0i64;
+  for (side, dir, n) in runs {
+    for _ in 0..n {
+      let name = pillar_name(p);
+      let (s, b) = (STEMS[(p % 10) as usize], BRANCHES[(p % 12) as usize]);
+      let fs = match s {
+        "甲" | "己" => "门",
+        "乙" | "庚" => "碓磨",
+        "丙" | "辛" => "厨灶",
+        "丁" | "壬" => "仓库",
+        _ => "房床",
+      };
+      let fb = match b {
+        "子" | "午" => "碓",
+        "丑" | "未" => "厕",
+        "寅" | "申" => "炉",
+        "卯" | "酉" => "门",
+        "辰" | "戌" => "栖",
+        _ => "床",
+      };
+      let place = match (fs, fb) {
+        ("门", "门") => "占大门".to_string(),
+        ("碓磨", "碓") => "占碓磨".to_string(),
+        ("房床", "床") => "占房床".to_string(),
+        ("门", x) => format!("占门{}", x),
+        (x, y) => format!("{}{}", x, y),
+      };
+      let where_ = if side == "内" {
+        format!("房内{}", dir)
+      } else if dir.chars().count() == 1 && dir != "中" {
+        format!("外正{}", dir)
+      } else {
+        format!("外{}", dir)
+      };
+      c.eq(format!("fetus-day-entry/{}", name), "FetusDay rendered entry", format!("{}", FetusDay::new(SixtyCycle::from_name(&name))), format!("{} {}", place, where_));
+      p += 1;
+    }
+  }
   let fetus_months = ["占房床", "占户窗", "占门堂", "占厨灶", "占房床", "占床仓", "占碓磨", "占厕户", "占门房", "占房床", "占灶炉", "占房床"];
   for m in 1..=12i64 {
     let got = FetusMonth::from_lunar_month(LunarMonth::from_ym(2023, m as isize)).map(|x| x.get_name()).unwrap_or_else(|| "none".into());
